@@ -80,6 +80,8 @@ class extract_visitor(NodeVisitor):
     def visit_Assign(self, node):
         # type: (ast.Assign) -> None
         eend = get_expr_end(node.value)
+        # the value is evaluated first: x = f(x := 1) ends with the outer x
+        self.visit(node.value)
         for targets in node.targets:
             for name, _ in get_indexes_for_target(targets, [], []):
                 if isinstance(name, Attribute):
@@ -90,7 +92,8 @@ class extract_visitor(NodeVisitor):
                     name.flow = self.flow  # type: ignore[attr-defined]
                     self.flow.add_name(AssignedName(name.id, eend, np(name), node.value))
 
-        self.generic_visit(node)
+        for targets in node.targets:
+            self.visit(targets)
 
     def visit_AnnAssign(self, node):
         # type: (ast.AnnAssign) -> None
@@ -99,6 +102,8 @@ class extract_visitor(NodeVisitor):
         else:
             eend = get_expr_end(node)
         name = node.target
+        if node.value:
+            self.visit(node.value)
         if isinstance(name, Attribute):
             self.top.add_attr_assign(self.flow.scope, name, node.value)  # type: ignore[arg-type]  # TODO
         elif isinstance(name, UNSUPPORTED_ASSIGMENTS):
@@ -106,7 +111,8 @@ class extract_visitor(NodeVisitor):
         elif node.value:
             name.flow = self.flow  # type: ignore[attr-defined]
             self.flow.add_name(AssignedName(name.id, eend, np(name), node.value))
-        self.generic_visit(node)
+        self.visit(node.target)
+        self.visit(node.annotation)
 
     def visit_If(self, node):
         # type: (ast.If) -> None
@@ -365,16 +371,23 @@ class extract_visitor(NodeVisitor):
 
     def visit_NamedExpr(self, node):
         # type: (ast.NamedExpr) -> None
-        if getattr(self, 'comp', None):
-            # the parts of a comprehension are not evaluated in source order:
-            # [x for it in items if (x := it)]
-            eend = np(self.comp)
+        name = node.target
+        comp = getattr(self, 'comp', None)
+        if comp:
+            # the parts of a comprehension or a conditional expression are not
+            # evaluated in source order: [x for it in items if (x := it)].
+            # What is evaluated later sees the binding from the start of the
+            # construct on, the value of the binding itself does not:
+            # y if (y := y + 1) else 0
+            self.visit(node.value)
+            self.flow = self.make_flow('walrus', [self.flow])
+            self.flow.scope.flow = self.flow
+            eend = np(comp)
         else:
             eend = get_expr_end(node.value)
-        name = node.target
+            self.visit(node.value)
         name.flow = self.flow  # type: ignore[attr-defined]
         self.flow.add_name(AssignedName(name.id, eend, np(name), node.value))
-        self.generic_visit(node)
 
 
 extract = visitor(extract_visitor)
